@@ -31,6 +31,27 @@ DivOK ==
     /\ (~IsZeroArr(b) => DivRemUnchecked(a, b) = <<FromVal(Val(a) \div Val(b)), FromVal(Val(a) % Val(b))>>)
     /\ (~IsZeroArr(b) /\ ~(a = MinPat /\ SVal(b) = -1) =>
             SDivRem(a, b) = <<FromVal(TDiv(SVal(a), SVal(b))), FromVal(TRem(SVal(a), SVal(b))), FALSE>>)
+\* floor / ceiling / euclidean division on integers
+FDiv(x, y) == x \div y                                   \* TLA+'s \div floors (y may be negative: use the sign-normalised form)
+FloorDiv(x, y) == IF y > 0 THEN x \div y ELSE (-x) \div (-y)
+CeilDiv(x, y) == -FloorDiv(-x, y)
+ERem(x, y) == x - Abs(y) * FloorDiv(x, Abs(y))           \* 0 <= r < |y|
+EDiv(x, y) == (x - ERem(x, y)) \div y
+RoundDivOK ==
+    ~IsZeroArr(b) =>
+        /\ LET x == Val(a)  y == Val(b)
+               nm == CeilDiv(x, y) * y
+           IN /\ UDivCeil(a, b) = <<FromVal(CeilDiv(x, y)), FALSE>>
+              /\ UNextMultipleOf(a, b) = <<FromVal(nm), ~UIn(nm), FALSE>>
+        /\ (~(a = MinPat /\ SVal(b) = -1) =>
+              LET x == SVal(a)  y == SVal(b)
+                  \* the nearest multiple of y at or beyond x in the direction of y's sign
+                  nm == IF y > 0 THEN CeilDiv(x, y) * y ELSE FloorDiv(x, -y) * (-y)
+              IN /\ SDivFloor(a, b) = <<FromVal(FloorDiv(x, y)), FALSE>>
+                 /\ SDivCeil(a, b) = <<FromVal(CeilDiv(x, y)), FALSE>>
+                 /\ SDivEuclid(a, b) = <<FromVal(EDiv(x, y)), FALSE>>
+                 /\ SRemEuclid(a, b) = FromVal(ERem(x, y))
+                 /\ SNextMultipleOf(a, b) = <<FromVal(nm), ~SIn(nm), FALSE>>)
 RECURSIVE Pop(_)
 Pop(x) == IF x = 0 THEN 0 ELSE (x % 2) + Pop(x \div 2)
 RECURSIVE Tz(_)
@@ -70,7 +91,7 @@ ConvOK ==
         /\ UFromI(a, tb) = (SVal(a) >= 0 /\ SVal(a) < P2(tb))
         /\ IFromU(a, tb) = (Val(a) < P2(tb - 1))
         /\ IFromI(a, tb) = (SVal(a) >= -P2(tb - 1) /\ SVal(a) < P2(tb - 1))
-AlgsOK == MulOK /\ MidOK /\ DivOK /\ CountOK /\ FmtOK /\ ConvOK
+AlgsOK == MulOK /\ MidOK /\ DivOK /\ RoundDivOK /\ CountOK /\ FmtOK /\ ConvOK
 \* vacuity probes (must be refuted): the rare paths exist at this size
 NoCarryOut == ~(\E c \in Carries : UAdd(WideningMul(a, b)[1], c)[2])          \* carrying_mul's low half overflows
 NoMinProduct == ~(SMul(a, b)[1] = MinPat /\ ~SMul(a, b)[2] /\ IsNeg(a) # IsNeg(b))   \* the product is exactly MIN
